@@ -33,7 +33,7 @@ Definition class_code (c:mclass) : N := match c with CRequest => 0 | CIndication
 Definition msg_abs (m:msg) : N * N := (class_code (m_class m), m_id m).
 (* the Rust struct for a model state (transport kind, marked transactions) *)
 Definition ti (reliable:bool) (markers:list txid) : TransportIntegrity :=
-  {| TransportIntegrity_transactions := markers; TransportIntegrity_is_reliable := reliable |}.
+  Build_TransportIntegrity markers reliable.
 (* Result<(), IntegrityError> for the model's option ierr (Ok = None) *)
 Definition res_code (r:option ierr) : gresult unit N :=
   match r with None => GRes.ROk tt | Some e => GRes.RErr (ierr_code e) end.
@@ -101,7 +101,7 @@ Theorem gen_discard_agrees : forall rel mk m,
   = GOk (ierr_code (fst (Model.discard_message rel mk m)), ti rel (snd (Model.discard_message rel mk m))).
 Proof.
   intros rel mk m. unfold gen_TransportIntegrity_discard_message, Model.discard_message, msg_abs, ti.
-  cbn [fst snd TransportIntegrity_transactions TransportIntegrity_is_reliable].
+  cbn.
   rewrite class_code_indication.
   destruct (class_eqb (m_class m) CIndication); [reflexivity|].
   destruct rel; reflexivity.
@@ -116,12 +116,12 @@ Theorem gen_compute_mi_agrees : forall (enc : attr -> N) (kenc : keyd -> N) (ora
 Proof.
   intros enc kenc oracle rel mk key integrity raw m Horacle.
   unfold gen_TransportIntegrity_compute_message_integrity, Model.compute_mi.
-  cbn [ti TransportIntegrity_transactions TransportIntegrity_is_reliable].
+  unfold ti; cbn.
   fold (ti rel mk).
   destruct integrity as [a|]; cbn [option_map].
   - rewrite (Horacle a eq_refl).
     destruct (keyd_eqb (mac_key a) key).
-    + unfold msg_abs at 1. cbn [fst snd]. rewrite class_code_indication.
+    + unfold msg_abs. cbn [fst snd]. rewrite ?class_code_indication.
       destruct (class_eqb (m_class m) CIndication); reflexivity.
     + rewrite gen_discard_agrees.
       destruct (Model.discard_message rel mk m) as [e mk']. reflexivity.
@@ -152,8 +152,8 @@ Proof.
 Qed.
 
 (* every state of the Rust struct is the image of a model state, so the agreements cover every receiver *)
-Lemma ti_surjective : forall s : TransportIntegrity, s = ti (TransportIntegrity_is_reliable s) (TransportIntegrity_transactions s).
-Proof. intros [t r]. reflexivity. Qed.
+Lemma ti_surjective : forall s : TransportIntegrity, exists rel mk, s = ti rel mk.
+Proof. intros [t r]. exists r, t. reflexivity. Qed.
 
 (* a rejected message changes nothing but the mark (C17): on reliable transport and for indications the set is untouched *)
 Lemma gen_discard_keeps_set_unless_unreliable_response : forall rel mk m,
